@@ -11,6 +11,7 @@ import (
 	"bytes"
 	"fmt"
 	"math/rand/v2"
+	"net/netip"
 	"sort"
 	"strings"
 	"testing"
@@ -439,6 +440,20 @@ func TestVerifC16(t *testing.T) { //nolint:cyclop,maintidx
 			}
 			if nc, err := vfC16Build(&near); err == nil {
 				others = append(others, nc)
+			}
+			// the same transport address in its other spelling (a.b.c.d <-> ::ffff:a.b.c.d): whatever Equal answers,
+			// it must answer the same in both directions
+			if ip, err := netip.ParseAddr(spec.Address); err == nil && (ip.Is4() || ip.Is4In6()) {
+				sib := *spec
+				if ip.Is4() {
+					sib.Address = "::ffff:" + ip.String()
+				} else {
+					sib.Address = ip.Unmap().String()
+				}
+				if sc, err := vfC16Build(&sib); err == nil {
+					others = append(others, sc)
+					r.count("c16_sibling_spelling_comparisons", 1)
+				}
 			}
 			for _, o := range others {
 				r.eval(1)
